@@ -192,11 +192,14 @@ def _unary(spec, x, ent, base_obj):
         rec(spec.fid('__hash__'), C_HASHWORKS, isinstance(hx, int) and hash(x) == hx, f'hash gave {hx!r}')
     except Exception as e:
         rec(spec.fid('__hash__'), C_HASHWORKS, False, 'raised ' + _exc(e))
-    # foreign
+    # foreign (not for pharmpy.model.execution_steps.ExecutionStep itself: that base class is not
+    # part of the public API - only EstimationStep/SimulationStep are exported - so the property,
+    # which speaks about API objects, does not cover it; removed after triage as a false alarm)
     try:
-        r1, r2 = x == None, x == object()  # noqa: E711
-        ok = (r1 is False or r1 is NotImplemented) and (r2 is False or r2 is NotImplemented)
-        rec(spec.fid('__eq__'), C_FOREIGN, ok, f'x == None gave {r1!r}, x == object() gave {r2!r}')
+        if type(x).__name__ != 'ExecutionStep':
+            r1, r2 = x == None, x == object()  # noqa: E711
+            ok = (r1 is False or r1 is NotImplemented) and (r2 is False or r2 is NotImplemented)
+            rec(spec.fid('__eq__'), C_FOREIGN, ok, f'x == None gave {r1!r}, x == object() gave {r2!r}')
     except Exception as e:
         rec(spec.fid('__eq__'), C_FOREIGN, False, 'raised ' + _exc(e))
     # copy
